@@ -186,8 +186,8 @@ def chunked(rng, data):
     return out
 
 
-def session_streams(rng):
-    r = rng.random()
+def session_streams(rng, force_request=False):
+    r = 0.99 if force_request else rng.random()
     if r < 0.3:
         c = b"".join(gen.rand_frame(rng, small=True) for _ in range(rng.randint(1, 12)))
     elif r < 0.5:
@@ -259,7 +259,7 @@ def relay_part(res, rng, nsessions):
         for pt in pollers:
             pt.start()
         for sidx in range(nsessions):
-            cdata, sdata = session_streams(rng)
+            cdata, sdata = session_streams(rng, force_request=(sidx % 8 == 3))
             with up.lock:
                 up.script = chunked(rng, sdata)
                 base = len(up.received)
@@ -292,7 +292,15 @@ def relay_part(res, rng, nsessions):
             t = threading.Thread(target=rd, daemon=True)
             t.start()
             try:
-                for ch in chunked(rng, cdata):
+                rest = cdata
+                if cdata[:4] in (b"GET ", b"SOUR") and b"\n" in cdata[:300] and rng.random() < 0.8:
+                    # an NTRIP client sends its request in one piece
+                    cut = cdata.index(b"\n") + 1
+                    cl.sendall(cdata[:cut])
+                    time.sleep(0.05)
+                    rest = cdata[cut:]
+                    res.count("session opened by a request line sent in one piece")
+                for ch in chunked(rng, rest):
                     cl.sendall(ch)
                     if rng.random() < 0.3:
                         time.sleep(0.001)
